@@ -46,13 +46,14 @@ def _model_dict(m):
     return out
 
 
-def _cvc5(smt2):
+def _cvc5(smt2, limit_s=None):
+    limit_s = limit_s or CVC5_TIMEOUT_S
     with tempfile.NamedTemporaryFile('w', suffix='.smt2', delete=False) as f:
         f.write('(set-logic ALL)\n' + smt2 + '\n(check-sat)\n')
         fn = f.name
     try:
-        r = subprocess.run(['/usr/bin/cvc5', '--tlimit=%d' % (CVC5_TIMEOUT_S * 1000), fn],
-                           capture_output=True, text=True, timeout=CVC5_TIMEOUT_S + 5)
+        r = subprocess.run(['/usr/bin/cvc5', '--tlimit=%d' % (limit_s * 1000), fn],
+                           capture_output=True, text=True, timeout=limit_s + 5)
         out = r.stdout.strip().splitlines()
         return out[0] if out else 'unknown'
     except Exception as e:
@@ -112,6 +113,17 @@ def discharge(ob, extra=(), timeout_ms=None, use_cvc5=True):
     ob.backend = 'z3-%s' % z3.get_version_string()
     if r == z3.unsat:
         ob.verdict = 'discharged'
+        if os.environ.get('PV_CROSSCHECK') and os.path.exists('/usr/bin/cvc5'):
+            # thorough tier: the same query goes to an independent solver; a disagreement is never resolved in favour of "proved"
+            t2 = time.time()
+            try:
+                res = _cvc5(s.to_smt2().replace('(check-sat)', ''), limit_s=int(os.environ.get('PV_CROSSCHECK_S', '10')))
+            except Exception:
+                res = 'unknown'
+            ob.seconds += time.time() - t2
+            ob.backend += ' + cvc5-1.0.3 cross-check: %s' % res
+            if res == 'sat':
+                ob.verdict, ob.reason = 'unknown', 'z3 says unsat, cvc5 says sat on the same query: solvers disagree'
     elif r == z3.sat:
         ob.verdict = 'refuted'
         try:
